@@ -12,6 +12,8 @@
 #include "solver.h"
 #include "solver_listener.h"
 #include "atom.h"
+#include "verif.h"
+#include <set>
 #include <iostream>
 #include <sstream>
 #include <map>
@@ -62,6 +64,35 @@ private:
     void causal_link_added(const flaw &f, const resolver &r) override { links.emplace_back(&f, &r); }
 };
 
+#ifdef ORATIO_VERIF
+// meaning of the theory literals, as reported by the hooks: used to tell which theory atoms a reported solution leaves undecided
+struct atom_rec : public smt::verif::listener
+{
+    std::map<var, lin> slacks;
+    struct asrt
+    {
+        var b;
+        int op;
+        var x;
+        inf_rational v;
+    };
+    std::vector<asrt> asrts;
+    void lra_slack(const var &x, const lin &l) override { slacks.emplace(x, l); }
+    void lra_assertion(const var &b, int op, const var &x, const inf_rational &v) override { asrts.push_back({b, op, x, v}); }
+    void base_vars(const var &x, std::set<var> &out, int depth = 0) const
+    {
+        const auto it = slacks.find(x);
+        if (it == slacks.cend() || depth > 20)
+        {
+            out.insert(x);
+            return;
+        }
+        for (const auto &[v, c] : it->second.vars)
+            base_vars(v, out, depth + 1);
+    }
+};
+#endif
+
 static std::string lv(solver &s, const lit &p)
 {
     switch (s.get_sat_core().value(p))
@@ -81,6 +112,10 @@ int main(int argc, char **argv)
     for (int i = 1; i < argc; ++i)
         files.push_back(argv[i]);
 
+#ifdef ORATIO_VERIF
+    atom_rec atoms;
+    smt::verif::current() = &atoms;
+#endif
     solver s;
     rec_listener l(s);
     try
@@ -114,6 +149,28 @@ int main(int argc, char **argv)
     s.extract_timelines().to_json(std::cout);
     std::cout << std::endl;
 
+#ifdef ORATIO_VERIF
+    {
+        std::cout << "@@UNDECIDED [";
+        bool fu = true;
+        for (const auto &a : atoms.asrts)
+            if (s.get_sat_core().value(a.b) == Undefined)
+            {
+                std::set<var> bv;
+                atoms.base_vars(a.x, bv);
+                std::cout << (fu ? "" : ",") << "{\"b\":" << a.b << ",\"op\":" << a.op << ",\"vars\":[";
+                bool f2 = true;
+                for (const auto &v : bv)
+                {
+                    std::cout << (f2 ? "" : ",") << v;
+                    f2 = false;
+                }
+                std::cout << "]}";
+                fu = false;
+            }
+        std::cout << "]" << std::endl;
+    }
+#endif
     std::ostringstream g;
     g << "{\"flaws\":[";
     bool first = true;
